@@ -1,8 +1,14 @@
 /-
   C02 — Cost volume holds the configured similarity measure, NaN where not computable.
-  (theorems; work in progress)
+
+  Model and specification: `Model/MatchingCost.lean`.  Lemmas: `Lemmas/MC*.lean`.
+  The theorems say: for every input of the right shape (odd window, subpix > 0, equal image sizes,
+  global min ≤ max), every pixel and every sampled disparity, the cost volume the model computes by following
+  the code (shifted images, point intervals, sliding sums / census bit strings / cumulative-sum rasters,
+  dilated masks, `dsp` indexing, interval masking) is the cell the statement prescribes: the textbook value
+  of the measure when the cost is computable, NaN otherwise.  No size bound appears anywhere.
 -/
-import PandoraModel.Model.MatchingCost
+import PandoraModel.Lemmas.MCMasked
 import PandoraModel.Generated.MatchingCostConsts
 
 namespace Pandora.C02
@@ -22,5 +28,73 @@ theorem typeMeasure_source_eq_model : Generated.MatchingCostConsts.typeMeasure =
 theorem cmax_source_eq_model :
     Generated.MatchingCostConsts.cmax = MC.cmaxOf Generated.MatchingCostConsts.cmaxRoundsUp := by
   funext m a b c d w; cases m <;> rfl
+
+/-! ### 1. The cost volume is the specified one -/
+
+/-- From planes that are right before masking (`RawOK`, proved per measure below) to the whole step:
+    `compute_cost_volume` followed by `cv_masked` yields, at every pixel `(r, c)` and every sample `j` of the
+    disparity range, exactly the cell of the specification. -/
+theorem costVolume_eq_spec_of_raw (x : Input) (h : Shape x)
+    (hg : gridMin x.dminG x.L.rows x.L.cols ≤ gridMax x.dmaxG x.L.rows x.L.cols)
+    (hraw : RawOK x) (r c : Int) (j : Nat)
+    (hj : j < nDisp (gridMin x.dminG x.L.rows x.L.cols) (gridMax x.dmaxG x.L.rows x.L.cols) x.sp) :
+    costVolume x r c j = specVolume x r c j := by
+  have hs := h.sp_pos
+  unfold costVolume specVolume intervalMask
+  simp only
+  set gmin := gridMin x.dminG x.L.rows x.L.cols with hgmin
+  set gmax := gridMax x.dmaxG x.L.rows x.L.cols with hgmax
+  set k : Int := gmin * (x.sp : Int) + j with hk
+  have hn := nDisp_eq gmin gmax x.sp hs hg
+  have hget := dispRange_getD gmin gmax x.sp hs hg j hj
+  rw [dispRange_eq gmin gmax x.sp hs hg] at *
+  have hjn : j < ((gmax - gmin) * (x.sp : Int)).toNat + 1 := by omega
+  unfold specCell
+  by_cases h1 : (k < x.dminG r c * (x.sp : Int) ∨ k > x.dmaxG r c * (x.sp : Int))
+  · rw [if_pos h1]
+    have hc : cause x r c k ≠ .computable := fun hc => ((cause_computable_iff x r c k).mp hc).1 h1
+    rw [if_neg hc]
+  · rw [if_neg h1, fold_steps x gmin _ _ r c j, if_pos hjn]
+    rw [masked_cell x h hraw gmin _ k r c j (by omega) (by simp only [hget, hk])]
+    by_cases hc : cause x r c k = .computable
+    · rw [if_pos hc]
+      obtain ⟨_, h2, h3, h4, h5⟩ := (cause_computable_iff x r c k).mp hc
+      rw [if_pos ⟨h2, h3, h4, h5⟩]
+    · rw [if_neg hc]
+      have : ¬ (LeftInside x r c ∧ RightInside x c k ∧ maskOk (half x.w) x.mL r c = true ∧ maskOkR x r c k = true) :=
+        fun hh => hc ((cause_computable_iff x r c k).mpr ⟨h1, hh⟩)
+      rw [if_neg this]
+
+/-- sad / ssd: the sliding sum over the NaN-padded pixel-wise volume, re-NaN-ed on the border, is the sum of
+    absolute / squared differences over the two windows, NaN exactly when a window leaves its image -/
+theorem rawOK_sad_ssd (x : Input) (h : Shape x) (hm : x.meas = .sad ∨ x.meas = .ssd) : RawOK x := by
+  intro k r c
+  unfold rawPlane
+  rcases hm with hm | hm <;> simp only [hm] <;> exact rawSadSsd_eq x h (by simp [hm]) k r c
+
+/-- zncc: the quotient built from the cumulative-sum mean and variance rasters is the zero-mean normalised
+    cross-correlation `cov / √(varL·varR)` (carried symbolically), `0` when a variance vanishes; hypothesis:
+    the `1e-15` threshold of `compute_std_raster` does not fire on a non-zero variance -/
+theorem rawOK_zncc (x : Input) (h : Shape x) (hm : x.meas = .zncc)
+    (hnt : ∀ k r c : Int, NoTiny x x.L.px r c ∧ NoTiny x (fun a b => interpR x.R x.sp k a b) r c) : RawOK x := by
+  intro k r c
+  unfold rawPlane
+  simp only [hm]
+  exact rawZncc_eq x h hm k r c (hnt k r c).1 (hnt k r c).2
+
+/-- **C02, sad and ssd.** -/
+theorem costVolume_eq_spec_sad_ssd (x : Input) (h : Shape x) (hm : x.meas = .sad ∨ x.meas = .ssd)
+    (hg : gridMin x.dminG x.L.rows x.L.cols ≤ gridMax x.dmaxG x.L.rows x.L.cols) (r c : Int) (j : Nat)
+    (hj : j < nDisp (gridMin x.dminG x.L.rows x.L.cols) (gridMax x.dmaxG x.L.rows x.L.cols) x.sp) :
+    costVolume x r c j = specVolume x r c j :=
+  costVolume_eq_spec_of_raw x h hg (rawOK_sad_ssd x h hm) r c j hj
+
+/-- **C02, zncc.** -/
+theorem costVolume_eq_spec_zncc (x : Input) (h : Shape x) (hm : x.meas = .zncc)
+    (hnt : ∀ k r c : Int, NoTiny x x.L.px r c ∧ NoTiny x (fun a b => interpR x.R x.sp k a b) r c)
+    (hg : gridMin x.dminG x.L.rows x.L.cols ≤ gridMax x.dmaxG x.L.rows x.L.cols) (r c : Int) (j : Nat)
+    (hj : j < nDisp (gridMin x.dminG x.L.rows x.L.cols) (gridMax x.dmaxG x.L.rows x.L.cols) x.sp) :
+    costVolume x r c j = specVolume x r c j :=
+  costVolume_eq_spec_of_raw x h hg (rawOK_zncc x h hm hnt) r c j hj
 
 end Pandora.C02
